@@ -1697,6 +1697,9 @@ char* save_variable (svalue_t * var) {
 
   save_svalue_depth = 0;
   theSize = svalue_save_size (var);
+  /* the text is an LPC string like any other */
+  if (theSize - 1 > (size_t) CONFIG_INT (__MAX_STRING_LENGTH__))
+    error ("*save_variable(): the text would be longer than the maximum string length (%d).\n", CONFIG_INT (__MAX_STRING_LENGTH__));
   new_str = new_string (theSize - 1, "save_variable");
   *new_str = '\0';
   p = new_str;
